@@ -115,7 +115,7 @@ func (o *Object) Call(r *Rec, paradigm string) {
 
 // Kinds lists the object kinds, simplest first. all adds the kinds that are too expensive for the quick tier.
 func Kinds(all bool) []string {
-	k := []string{"pregel-state-branch", "workflow-map", "nested", "nested-steplimit", "react", "react-rd", "react-shared-input", "host", "dag-fanout"}
+	k := []string{"pregel-state-branch", "workflow-map", "nested", "nested-steplimit", "react", "react-rd", "react-shared-input", "host", "host-shared-opts", "dag-fanout"}
 	if all {
 		k = append(k, "workflow-fanin")
 	}
@@ -125,7 +125,7 @@ func Kinds(all bool) []string {
 // Describe tells which paradigms a kind offers and whether its runs have intra-run parallelism.
 func Describe(kind string) (paradigms []string, par bool) {
 	switch kind {
-	case "react", "react-rd", "react-shared-input", "host":
+	case "react", "react-rd", "react-shared-input", "host", "host-shared-opts":
 		return []string{"invoke", "stream"}, false
 	case "dag-fanout", "workflow-fanin":
 		return valParadigms, true
@@ -159,6 +159,8 @@ func Build(kind string) (*Object, error) {
 		return buildReactShared()
 	case "host":
 		return buildHost()
+	case "host-shared-opts":
+		return buildHostSharedOpts()
 	}
 	return nil, fmt.Errorf("unknown object kind %q", kind)
 }
